@@ -711,7 +711,8 @@ func (c *Conn) recv(ctx context.Context) error {
 		if err := framer.readFrame(c, &head); err != nil {
 			return err
 		}
-		go c.session.handleEvent(framer)
+		// in the order of arrival: the last status reported for a node is the one that counts
+		c.session.handleEvent(framer)
 		return nil
 	} else if head.stream <= 0 {
 		// reserved stream that we dont use, probably due to a protocol error
